@@ -118,21 +118,24 @@ fn replay(ctx: &Ctx, v: &Value) -> Result<String, String> {
         // debugging aid: run until the first failure and dump the link history
         for rep in 0..20u64 {
             let cfg = &configs[0];
-            let opts = RunOpts { record_links: true, probes: true, watchdog: Some(watchdog(ctx.tier, true)), ..RunOpts::default() };
+            let opts = RunOpts { record_links: true, probes: true, stamp: true, watchdog: Some(watchdog(ctx.tier, true)), ..RunOpts::default() };
             let reference = evaluate(&job, &cfg.layout.cores(), cap(ctx.tier)).unwrap();
             match run_spec(&job, cfg, &opts, AddrSeed { shard: 220, job: rep }) {
                 RunResult::Done(run) => {
-                    let bad = check_sinks(&run, &reference);
+                    let mut bad = check_sinks(&run, &reference);
+                    if std::env::var("VERIF_TRACE_ALWAYS").is_ok() && bad.is_ok() {
+                        bad = Err("trace requested".into());
+                    }
                     if bad.is_err() {
                         let mut lines: Vec<(u64, String)> = Vec::new();
                         for s in &run.sends {
-                            lines.push((s.seq, format!("SEND {} -> {} {:?}", crate::obs::loc_str(s.from), crate::obs::ep_str(s.ep), s.msg.iter().map(|e| format!("{:?}", e.kind)).collect::<Vec<_>>())));
+                            lines.push((s.seq, format!("SEND {} -> {} {:?}", crate::obs::loc_str(s.from), crate::obs::ep_str(s.ep), s.msg.iter().map(|e| format!("{:?}:{:x}", e.kind, e.digest & 0xffff)).collect::<Vec<_>>())));
                         }
                         for s in &run.recvs {
                             lines.push((s.seq, format!("RECV {} <- {} {:?}", crate::obs::ep_str(s.ep), crate::obs::loc_str(s.from), s.msg.iter().map(|e| format!("{:?}", e.kind)).collect::<Vec<_>>())));
                         }
                         for p in &run.probes {
-                            lines.push((p.seq, format!("PROBE {} at {} {:?} v={}", p.probe, crate::obs::loc_str(p.loc), p.kind, p.v)));
+                            lines.push((p.seq, format!("PROBE {} at {} {:?} v={} d={:x}", p.probe, crate::obs::loc_str(p.loc), p.kind, p.v, p.digest & 0xffff)));
                         }
                         let w = run.ctx.workers.lock().unwrap();
                         for (l, p) in &w.ended {
